@@ -168,7 +168,83 @@ func (p *Prog) ServerPkgs() []*packages.Package {
 // callee resolves the static callee or interface method of a call; nil for dynamic calls through function values.
 func callee(info *types.Info, call *ast.CallExpr) *types.Func {
 	fn, _ := typeutil.Callee(info, call).(*types.Func)
+	if fn == nil && theProg != nil {
+		// a call through a function value that is bound exactly once to a function or method (`stop := q.wheel.Close;
+		// stop()`, `lookup := r.table.LookupMulti; lookup(ctx, k)`): the function it is bound to
+		if id, ok := ast.Unparen(call.Fun).(*ast.Ident); ok {
+			if o := info.Uses[id]; o != nil {
+				return theProg.funcValueOf(o)
+			}
+		}
+	}
 	return fn
+}
+
+// funcValueOf: the function a local variable is bound to, if it is assigned exactly once in the module and the value
+// is a function or a method value.
+func (p *Prog) funcValueOf(o types.Object) *types.Func {
+	if p.funcValues == nil {
+		p.funcValues = map[types.Object]*types.Func{}
+		count := map[types.Object]int{}
+		bind := func(info *types.Info, l ast.Expr, r ast.Expr) {
+			lo := objOf(info, l)
+			v, isVar := lo.(*types.Var)
+			if !isVar || v.IsField() || v.Pkg() == nil || v.Parent() == v.Pkg().Scope() {
+				return
+			}
+			count[lo]++
+			if r == nil {
+				return
+			}
+			var fn *types.Func
+			switch x := ast.Unparen(r).(type) {
+			case *ast.Ident:
+				fn, _ = info.Uses[x].(*types.Func)
+			case *ast.SelectorExpr:
+				if sel := info.Selections[x]; sel != nil && sel.Kind() == types.MethodVal {
+					fn, _ = sel.Obj().(*types.Func)
+				} else {
+					fn, _ = info.Uses[x.Sel].(*types.Func)
+				}
+			}
+			if fn != nil {
+				p.funcValues[lo] = fn
+			}
+		}
+		for _, pk := range p.Pkgs {
+			for _, f := range pk.Syntax {
+				ast.Inspect(f, func(n ast.Node) bool {
+					switch s := n.(type) {
+					case *ast.AssignStmt:
+						for i, l := range s.Lhs {
+							var r ast.Expr
+							if len(s.Rhs) == len(s.Lhs) {
+								r = s.Rhs[i]
+							}
+							bind(pk.TypesInfo, l, r)
+						}
+					case *ast.ValueSpec:
+						for i, nm := range s.Names {
+							var r ast.Expr
+							if i < len(s.Values) {
+								r = s.Values[i]
+							}
+							bind(pk.TypesInfo, nm, r)
+						}
+					case *ast.IncDecStmt:
+						bind(pk.TypesInfo, s.X, nil)
+					}
+					return true
+				})
+			}
+		}
+		for o, n := range count {
+			if n != 1 {
+				delete(p.funcValues, o)
+			}
+		}
+	}
+	return p.funcValues[o]
 }
 
 // qname returns "pkgpath.Name" or "pkgpath.Recv.Name" (receiver without pointer) of a function object.
